@@ -177,7 +177,7 @@ pub fn check(ctx: &Ctx) -> i32 {
             }
         }
     }
-    let n = ctx.tier.pick(8000, 100000);
+    let n = ctx.tier.pick(8000, 500000);
     let run = |b: &[u8]| {
         let (text, cfgs) = syntax_case(ctx, b);
         run_all(&text, &cfgs)
@@ -187,7 +187,7 @@ pub fn check(ctx: &Ctx) -> i32 {
         eprintln!("{}", f.summary);
         report.violations.push(write_replay(ctx, "syntax", &bytes, &f));
     } else {
-        let n2 = ctx.tier.pick(1500, 30000);
+        let n2 = ctx.tier.pick(1500, 100000);
         let run2 = |b: &[u8]| {
             let (text, cfgs) = typed_case(ctx, b);
             run_all(&text, &cfgs)
